@@ -47,7 +47,12 @@ func verifFileName(format string) {
 	v.Assume(v.AllIn(name[1:], "a-z"))
 	pre := verifOpt("pre", 2, "a-z")
 	meta := verifOpt("meta", 1, "a-z")
-	rel := verifOpt("rel", 1, "1-9")
+	// the release: empty, or 1-2 characters incl. non-canonical numbers ("01", "+2") and words
+	rel := ""
+	if v.NondetBool("rel.set") {
+		rel = v.NondetStringRange("rel", 1, 2)
+		v.Assume(v.AllIn(rel, "0-9a-z+"))
+	}
 	epoch := verifOpt("epoch", 1, "1-9")
 	arch := verifArches[v.NondetChoice("arch", len(verifArches))]
 	override := verifOpt("archoverride", 2, "a-z")
